@@ -172,10 +172,17 @@ impl BuiltinProp {
         // what the function is unified with
         let nums: Vec<Num> = vals.iter().map(|v| match v { Term::Int(i) => Num::I(*i), Term::Float(x) => Num::F(*x), _ => unreachable!() }).collect();
         let value = match fold_arith(op, &nums) { Some(Num::I(i)) => Term::Int(i), Some(Num::F(x)) => Term::Float(x), None => return CaseResult::Discard("integer overflow or division by zero (outside the claim)".into()) };
-        let partner_kind = s.draw(5);
+        let partner_kind = s.draw(6);
         let partner = match partner_kind {
             0 | 1 => Term::Var(sc.fresh()),
             2 => value.clone(),
+            // the closest different number: the neighbouring double (1 ulp away) / the neighbouring integer - "unified
+            // with the other operand" means equal, not approximately equal
+            5 => match &value {
+                Term::Int(i) => Term::Int(if chance(s, 1, 2) { i.wrapping_sub(1) } else { i.wrapping_add(1) }),
+                Term::Float(x) if x.is_finite() && *x != 0.0 => Term::Float(f64::from_bits(if chance(s, 1, 2) { x.to_bits() + 1 } else { x.to_bits() - 1 })),
+                Term::Float(_) => Term::Float(5e-324),
+                _ => unreachable!() },
             3 => match &value { Term::Int(i) => Term::Int(i.wrapping_add(1)), Term::Float(x) => Term::Float(x + 1.5), _ => unreachable!() },
             _ => match &value { // same value, other numeric type
                 Term::Int(i) => Term::Float(*i as f64),
@@ -184,6 +191,7 @@ impl BuiltinProp {
         };
         if let Term::Float(x) = &value { if x.is_nan() && partner_kind >= 2 { return CaseResult::Discard("NaN result against a constant".into()); } }
         let fun_left = chance(s, 1, 3);
+        let partner = if partner_kind >= 2 && pres <= 1 && chance(s, 1, 3) { let l = s.draw(2); sc.bind(s, partner, l) } else { partner };
         sc.goals.push(if fun_left { Goal::Unify(f.clone(), partner.clone()) } else { Goal::Unify(partner.clone(), f.clone()) });
         let p = sc.program(vec![]);
         let style = match pres { 2 => Some(render::CANON), 3 => Some(render::Style { infix_arith: true, ..render::CANON }), _ => None };
@@ -202,7 +210,7 @@ impl BuiltinProp {
         }
         rep.class(&format!("presentation:{}", ["literal-api", "variables-api", "text-function", "text-infix"][pres]));
         rep.class(&format!("op:{}", op));
-        rep.class(&format!("partner:{}", ["unbound", "unbound", "equal-constant", "different-constant", "same-value-other-type"][partner_kind as usize]));
+        rep.class(&format!("partner:{}", ["unbound", "unbound", "equal-constant", "different-constant", "same-value-other-type", "neighbouring-number"][partner_kind as usize]));
         let mixed = nums.iter().any(|x| matches!(x, Num::I(_))) && nums.iter().any(|x| matches!(x, Num::F(_)));
         let inexact = op == "divide" && matches!(value, Term::Int(_)) && nums.len() >= 2 && { let is: Vec<i64> = nums.iter().map(|x| if let Num::I(i) = x { *i } else { 0 }).collect(); is[1] != 0 && is[0] % is[1] != 0 };
         if mixed { rep.class("mixed-int-float"); }
